@@ -42,8 +42,15 @@ class Ctx:
 
 def load(tier, repo=None):
     configs = extract.THOROUGH if tier == "thorough" else extract.QUICK
-    files, th = extract.extract(configs, root=repo)
-    programs = {c: facts.Program(c, files[c]) for c in configs}
+    for attempt in range(3):
+        files, th = extract.extract(configs, root=repo)
+        try:
+            programs = {c: facts.Program(c, files[c]) for c in configs}
+            break
+        except FileNotFoundError:
+            # a concurrent run pruned the set between extraction and loading: extract again
+            if attempt == 2:
+                raise
     # helpers that did not exist when the rules were written are analysed in place (inline.py)
     import inline
     programs = {c: inline.transparent_view(p) for c, p in programs.items()}
